@@ -735,8 +735,10 @@ func sameNameWF(c *Case) *WF {
 var profC03 = Profile{
 	MaxProcs: 3, MaxItems: 2, Bufsizes: []int{0, 1, 2}, MaxSlots: 3,
 	Params: true, MultiOut: true, FanIn: true, FanOut: true,
-	// (outputs on the second file system always fail to be finalized - C01's business - so none here)
-	Subdirs: true, ParentAbs: true, NoOtherDevice: true, Extras: true, Cores: true, Zip: true, EmptyOuts: true, Joins: true,
+	// (outputs on the second file system fail to be finalized on the unchanged tree - such
+	// cases are skipped as a failed precondition, about one in eleven - but a change that
+	// makes them succeed by copying must converge after a kill inside the copy: kept)
+	Subdirs: true, ParentAbs: true, Extras: true, Cores: true, Zip: true, EmptyOuts: true, Joins: true,
 	// (Go-function tasks work in temp directories too; both ways of writing)
 	Custom: true, CustomIdiom: true,
 }
